@@ -213,7 +213,10 @@ S13 = Scenario(
 
 S14 = Scenario(
     "S14-held-lists", seeds.seed_held_lists,
-    ["cable.wires=.held", "port.pins=.held", "cable.create_wire", "port.create_pin", "cable.remove_wire", "port.remove_pin"],
+    ["cable.wires=.held", "port.pins=.held", "cable.create_wire", "port.create_pin", "cable.remove_wire", "port.remove_pin",
+     "library.definitions=.held", "library.create_definition", "netlist.libraries=.held", "netlist.create_library",
+     "definition.ports=.held", "definition.cables=.held", "definition.children=.held", "definition.create_port",
+     "definition.create_cable", "definition.create_child.noref"],
     limits={"positions": (None,), "names": (None,), "counts": (None,)},
     depth={"quick": 3, "thorough": 4},
     note="a list object the caller keeps is assigned to the wires / pins of two bundles, which are then edited")
@@ -227,5 +230,14 @@ S15 = Scenario(
     note="instances, cables, wires and ports that are wired are cloned; the copies are put to use (C01 and C14 only: clone "
          "is not an editing call in the sense of C19)")
 
+S16 = Scenario(
+    "S16-clone-then-edit", seeds.seed_c02_mix,
+    ["clone", "definition.ports=", "definition.create_port", "port.create_pin", "port.remove_pin", "definition.remove_port",
+     "instance.reference="],
+    limits={"positions": (None,), "names": (None,), "counts": (None, 1), "clone_kinds": "NLD", "proxy_pairs": lambda w: [], "odd_bulk": False},
+    depth={"quick": 2, "thorough": 3},
+    note="a netlist / library / definition is cloned (also after its ports were reordered), then the copy's or the "
+         "original's definitions are reshaped (C02 only: the copy's instances must mirror the copy's definitions)")
+
 STRUCTURAL += [S10, S11, S9, S12, S13, S14]
-INSTANCE_SCENARIOS += [S11]
+INSTANCE_SCENARIOS += [S11, S16]
